@@ -236,6 +236,11 @@ def tool_family(ck, rnd, tier, bd, wd, trace, owner):
     subprocess.run([zck, "-o", "plain.zck", "input.bin"], cwd=d0, stdout=subprocess.DEVNULL, stderr=subprocess.DEVNULL, timeout=60)
     subprocess.run([zck, "-D", "dict.bin", "-o", "withdict.zck", "input.bin"], cwd=d0, stdout=subprocess.DEVNULL, stderr=subprocess.DEVNULL, timeout=60)
     good = open(os.path.join(d0, "plain.zck"), "rb").read(); goodd = open(os.path.join(d0, "withdict.zck"), "rb").read()
+    # content with whole 32 KiB blocks of zeros at block-aligned offsets (a tool may treat them specially: holes)
+    DZ = corpus.text(rnd, 32768) + bytes(65536) + corpus.text(rnd, 40000)[:32768] + bytes(32768) + corpus.text(rnd, 5000)
+    open(os.path.join(d0, "zeros.bin"), "wb").write(DZ)
+    subprocess.run([zck, "-o", "zeros.zck", "zeros.bin"], cwd=d0, stdout=subprocess.DEVNULL, stderr=subprocess.DEVNULL, timeout=60)
+    goodz = open(os.path.join(d0, "zeros.zck"), "rb").read() if os.path.exists(os.path.join(d0, "zeros.zck")) else b""
     hd = ref.parse_header(goodd)
     if not (ref.RefFile(good).valid_strict and ref.RefFile(goodd).valid_strict and hd.entries[0]["clen"] > 0):
         raise Broken("tool baseline files are not valid")
@@ -256,6 +261,7 @@ def tool_family(ck, rnd, tier, bd, wd, trace, owner):
             ("zck -D", [zck, "-D", "dict.bin", "-o", "input.bin.zck", "input.bin"], {"input.bin": D, "dict.bin": dictb}, "in=input.bin;out=input.bin.zck;dict=dict.bin", zck_ok("input.bin.zck", D)),
             ("zck -s", [zck, "-s", "the", "-o", "input.bin.zck", "input.bin"], {"input.bin": D}, "in=input.bin;out=input.bin.zck", zck_ok("input.bin.zck", D)),
             ("unzck", [unzck, "input.bin.zck"], {"input.bin.zck": good}, "in=input.bin.zck;out=input.bin", file_is("input.bin", D)),
+            ("unzck (zero blocks)", [unzck, "zeros.zck"], {"zeros.zck": goodz}, "in=zeros.zck;out=zeros", file_is("zeros", DZ)),
             ("unzck (dict file)", [unzck, "withdict.zck"], {"withdict.zck": goodd}, "in=withdict.zck;out=withdict", file_is("withdict", D)),
             ("unzck --header", [unzck, "--header", "withdict.zck"], {"withdict.zck": goodd}, "in=withdict.zck;out=withdict.zhr", file_is("withdict.zhr", detached)),
             ("unzck --dict", [unzck, "--dict", "withdict.zck"], {"withdict.zck": goodd}, "in=withdict.zck;out=withdict.zdict", file_is("withdict.zdict", dictb))]
@@ -277,7 +283,7 @@ def tool_family(ck, rnd, tier, bd, wd, trace, owner):
         for l in (open(tr) if os.path.exists(tr) else []):
             c = json.loads(l); key = (c["k"], c["role"]); cnt[key] = cnt.get(key, 0) + 1
         for (k, role), n in sorted(cnt.items()):
-            ks = range(1, n + 1) if (tier == "thorough" or n <= 6) else sorted(set([1, 2, n, n // 2] + rnd.sample(range(1, n + 1), 3 if ri < 2 or ri == 3 else 1)))
+            ks = range(1, n + 1) if (tier == "thorough" or n <= 6) else sorted(set([1, 2, n, n // 2] + rnd.sample(range(1, n + 1), 3 if ri < 2 or ri in (3, 4) else 1)))
             for nth in ks:
                 for a in ERRS + ([-1] if k in "rw" else []) + ([0] if (k == "r" and tool.startswith("unzck")) else []):   # every errno matters: code may special-case one (EINTR retries); a read returning 0: the file stops there (for unzck, whose input says how long it is; for zck's raw input that IS the end of the input)
                     faults.append((ri, [(k, role, nth, a)]))
